@@ -567,6 +567,9 @@ class TextNmea2000Gateway(AsyncIOClient):
         if not data:
             # end of stream: readline() returns b'' immediately from now on
             raise ConnectionError("Connection closed by the gateway")
+        if not data.endswith(b'\n'):
+            # end of stream in the middle of a line: the fragment is not a packet and must not be decoded as one
+            raise ConnectionError("Connection closed by the gateway in the middle of a line")
         self.logger.debug(f"Received: {data.hex()}")
         line = data.decode('utf-8', errors='ignore').strip()
         try:
